@@ -55,11 +55,27 @@ func init() {
 		"distinct run digests with at least one accepted relayed change in a session of >= 2", func(r *Result) bool { return trig(r) })
 	props["C04"] = histSpec("C04", histProfile("C04", nil, func(p *Profile) { p.PBurst = 0.1 }),
 		"distinct run digests with at least one accepted and one refused request", func(r *Result) bool { return trig(r) })
-	props["C05"] = histSpec("C05", histProfile("C05", map[string]int{"entity_delete": 14, "pose": 14, "asset_add": 12, "entity_add": 14}, func(p *Profile) { p.MinMembers = 2; p.PClose = 0.07 }),
+	props["C05"] = histSpec("C05", histProfile("C05", map[string]int{"entity_delete": 14, "pose": 14, "asset_add": 12, "entity_add": 14}, func(p *Profile) {
+		p.MinMembers = 2
+		p.PClose = 0.07
+		p.PBlock = 0.04
+		p.BlockOps = []string{"joiner", "joiner", "entity_add", "entity_delete", "pose"}
+	}),
 		"distinct run digests with an ownership decision (delete/pose/asset on an entity)", func(r *Result) bool { return trig(r, "op:entity_delete", "op:pose", "op:asset_add") })
-	props["C06"] = histSpec("C06", histProfile("C06", map[string]int{"switch": 6, "entity_add": 16, "comp_add": 10, "action": 8, "asset_add": 8, "subscribe": 6}, func(p *Profile) { p.MinMembers = 2; p.PClose = 0.1; p.PProbe = 0.1; p.PDie = 0.5 }),
+	props["C06"] = histSpec("C06", histProfile("C06", map[string]int{"switch": 6, "entity_add": 16, "comp_add": 10, "action": 8, "asset_add": 8, "subscribe": 6}, func(p *Profile) {
+		p.MinMembers = 2
+		p.PClose = 0.1
+		p.PProbe = 0.1
+		p.PDie = 0.5
+		p.PBlock = 0.06 // a departure overlapping a join or another member's change
+		p.BlockOps = []string{"close", "close", "switch", "joiner", "joiner", "entity_add", "comp_add", "action"}
+	}),
 		"distinct run digests with a departure of a member that owned entities", func(r *Result) bool { return trig(r, "departure", "server_ended") })
-	props["C12"] = histSpec("C12", histProfile("C12", map[string]int{"type_add": 10, "comp_add": 16, "comp_delete": 9, "comp_update": 10, "comp_list": 8, "entity_delete": 8, "type_get_name": 3, "type_get_id": 3}, func(p *Profile) { p.PClose = 0.06; p.PBlock = 0.05; p.BlockOps = []string{"type_add", "type_add", "comp_add", "comp_delete", "entity_delete"} }),
+	props["C12"] = histSpec("C12", histProfile("C12", map[string]int{"type_add": 10, "comp_add": 16, "comp_delete": 9, "comp_update": 10, "comp_list": 8, "entity_delete": 8, "type_get_name": 3, "type_get_id": 3}, func(p *Profile) {
+		p.PClose = 0.06
+		p.PBlock = 0.05
+		p.BlockOps = []string{"type_add", "type_add", "comp_add", "comp_delete", "entity_delete"}
+	}),
 		"distinct run digests with an accepted component operation", func(r *Result) bool { return trig(r, "op:comp_add") })
 	props["C13"] = histSpec("C13", histProfile("C13", map[string]int{"type_add": 8, "comp_add": 14, "comp_delete": 8, "comp_update": 14, "subscribe": 12, "unsubscribe": 8}, func(p *Profile) { p.MinMembers = 3; p.PClose = 0.05 }),
 		"distinct run digests with a subscription and a component change", func(r *Result) bool { return trig(r, "op:subscribe") && trig(r, "op:comp_add", "op:comp_update") })
